@@ -129,6 +129,18 @@ def cases(ctx):
         lit = ''.join(r1.choice('abcdefgh') for _ in range(2000))
         yield ('call', 'match', lit, 'a' * 2001, '', 'directed-long-literal')
         yield ('call', 'match_all', 'x?' + 'ab' * 1000, 'b' * 2500, 'i', 'directed-long-literal')
+    # several regex calls in ONE evaluation: harmless but costly-to-compile patterns first, a catastrophic one last
+    # (a budget, counter or cache shared by the calls of one evaluation must not switch the protection off)
+    for _ in range(ctx.scale(6, 120)):
+        r = random.Random(rnd.getrandbits(48))
+        calls = []
+        for _ in range(r.randint(1, 4)):
+            words = r.choice([800, 2000, 3300])
+            tag = r.choice('uvwxyz') + str(r.randrange(10 ** 6))
+            calls.append((r.choice(FUNCS), '|'.join('%s%d' % (tag, i) for i in range(words)), 'x', ''))
+        evil = r.choice([(r'(a+)+$', 'a' * 40 + '!'), (r'(a|aa)+$', 'a' * 60 + '!'), (r'\w*\w*\w*\w*\w*\w*\d$', 'a' * 3000 + '!'), (r'(?:a|aa)+b|c', ('a' * 21 + 'c ') * 300)])
+        calls.append((r.choice(FUNCS), evil[0], evil[1], ''))
+        yield ('seq', calls)
     for _ in range(ctx.scale(90, 1500)):
         r = random.Random(rnd.getrandbits(48))
         if r.random() < 0.8:
@@ -144,7 +156,42 @@ def cases(ctx):
         n += 1
 
 
+def run_seq(case, ctx):
+    calls = case[1]
+    names, parts, b = {}, [], 0.0
+    for i, (fn, p, subj, fl) in enumerate(calls):
+        names['s%d' % i], names['p%d' % i] = subj, p
+        parts.append('try_(v => %s(s%d, p%d), 0)' % (fn, i, i))
+        b += bound(p, subj)
+
+    def try_(f, *a):
+        try:
+            return f(*a)
+        except Exception:
+            return None
+    names['try_'] = try_
+    src = '[' + ', '.join(parts) + ']'
+    t0 = time.process_time()
+    try:
+        ctx.P.eval(src, names, None, 1000)
+        outcome = 'returned'
+    except Exception as e:
+        outcome = type(e).__name__
+    dt = time.process_time() - t0
+    ctx.count('sequences_timed')
+    ctx.count('calls_timed', len(calls))
+    ctx.nontriv('seq|' + '|'.join('%s:%d:%d' % (c[0], len(c[1]), len(c[2])) for c in calls) + calls[-1][1])
+    ctx.cov('function_x_family', '%s/sequence-in-one-eval' % calls[-1][0])
+    if dt >= 0.03:
+        ctx.count('hostile_cases(cpu>=30ms)')
+    if dt > b:
+        ctx.violation('%d regex calls in one evaluation burnt %.2f s CPU (sum of bounds %.2f s)' % (len(calls), dt, b), case,
+                      detail={'calls': [(c[0], c[1][:40], len(c[1]), len(c[2])) for c in calls], 'cpu_s': round(dt, 3), 'bound_s': round(b, 3), 'outcome': outcome})
+
+
 def run_case(case, ctx):
+    if case[0] == 'seq':
+        return run_seq(case, ctx)
     _, fn, pattern, subject, flags, family = case
     names = {'s': subject, 'p': pattern}
     if flags is None:
@@ -185,6 +232,12 @@ def judge_hang(h):
     cpu = h.get('cpu_s')
     try:
         case = pickle.loads(base64.b64decode(j['pickle']))
+        if case[0] == 'seq':
+            b = sum(bound(c[1], c[2]) for c in case[1])
+            if cpu is not None and cpu >= b:
+                return {'finding': None, 'what': 'regex calls in one evaluation did not return: killed after %.0f s wall having burnt %.1f s CPU' % (h['wall_s'], cpu),
+                        'case': ['seq', [(c[0], c[1][:40], len(c[1]), len(c[2])) for c in case[1]]], 'detail': {'cpu_s': cpu, 'bound_s': round(b, 2)}, 'pickle': j.get('pickle')}
+            return None
         b = bound(case[2], case[3])
         finding = classify(case[2], len(case[3]))
         shown = ['call', case[1], case[2][:120], 'subject of %d chars' % len(case[3]), case[4], case[5]]
